@@ -15,6 +15,8 @@ type Profile struct {
 	IncDec   bool // x++ / x += e statements (C14)
 	Cross    bool // by-construction scope patterns: every binder form x every block form on a fresh name, own-name rebinding, closure factories called several times (C04)
 	HostChan bool // the environment is prog.NewHost (has gch(v), a buffered channel holding v, and the callback-taking gcall0 / geach): `x = <-gch(v)` binder forms, script callbacks handed to Go
+	Assign   bool // by-construction pattern assignCross: every ASSIGNING form (the ones without var) on a name that an enclosing scope binds, inside every block form, read inside and afterwards (C04); needs HostChan for the receive and gset(&x, v) forms
+	ErrOps   bool // patterns of gen_errops.go (C09): an operand that is not the last one fails inside a compound expression, runtime errors raised by the interpreter's own operations (string repeat overflow, closed channels, ...), a deferred call assigns the typed-slice element / struct field just returned; needs Errors and HostChan
 	MaxDepth int
 	MaxStmts int // statements per block
 }
@@ -234,6 +236,17 @@ func (g *G) stmt(c *gctx) []*N {
 		if !deep && P.HostChan {
 			add(4, func() []*N { return []*N{g.callbackStmt(c)} })
 		}
+	}
+	if P.Assign && !deep {
+		// last in the list: profiles without the flag draw exactly what they drew before
+		add(45, func() []*N { return g.assignCross(c) })
+	}
+	if P.ErrOps && !deep {
+		// after every other option, for the same reason
+		add(4, func() []*N { return g.raiseInsideExpr(c) })
+		add(2, func() []*N { return g.deferAfterReturnedTypedSlot(c) })
+		add(2, func() []*N { return []*N{g.guarded(c, g.rterrStmt())} })
+		add(4, func() []*N { return g.deferArgsHeld(c) })
 	}
 	total := 0
 	for _, o := range opts {
@@ -657,7 +670,42 @@ func (g *G) loopStmt(c *gctx) []*N {
 		init := &N{K: "let", Ps: []string{ctr}, Ns: []*N{Int(0)}}
 		cnd := Bin("<", Id(ctr), Int(bound))
 		none := &N{K: "none"}
-		switch g.n(0, 7, "cforhdr") {
+		switch g.n(0, 10, "cforhdr") {
+		case 8:
+			// the header that has a condition only: `for ; cond ; { }`. The body runs exactly while the
+			// condition holds - not at all when it is false at the start (the counter then starts at the
+			// bound). Most bodies carry a guard that is dead code while the condition is honoured and
+			// ends (and reports) the loop when it is not, so a wrong loop shows as a trace difference
+			// rather than as a hang.
+			g.feat("loop_cfor_condition_only")
+			start := int64(0)
+			if g.chance(25) {
+				start = bound
+				g.feat("loop_cfor_condition_only_false_at_start")
+			}
+			c8 := cnd
+			if g.chance(35) {
+				c8 = &N{K: "and", Ns: []*N{cnd, g.cond(c, 1)}}
+			}
+			head := []*N{{K: "let", Ps: []string{ctr}, Ns: []*N{Bin("+", Id(ctr), Int(1))}}}
+			if g.chance(75) {
+				head = append(head, &N{K: "if", Ns: []*N{Bin(">", Id(ctr), Int(bound+1))}, Ss: [][]*N{{{K: "expr", Ns: []*N{P1(g.id(), Id(ctr))}}, {K: "break"}}}})
+			}
+			if g.chance(50) {
+				head = append(head, &N{K: "expr", Ns: []*N{P1(g.id(), Id(ctr))}})
+			}
+			body = append(head, body...)
+			out = []*N{{K: "var", Ps: []string{ctr}, Ns: []*N{Int(start)}}, {K: "cfor", Ns: []*N{none, c8, none}, Ss: [][]*N{body}}}
+		case 9:
+			// the header that has a post expression only: `for ; ; post { }`, left by break only
+			g.feat("loop_cfor_post_only")
+			body = append([]*N{{K: "if", Ns: []*N{Bin(">=", Id(ctr), Int(bound))}, Ss: [][]*N{{{K: "break"}}}}}, body...)
+			out = []*N{{K: "var", Ps: []string{ctr}, Ns: []*N{Int(0)}}, {K: "cfor", Ns: []*N{none, none, postN}, Ss: [][]*N{body}}}
+		case 10:
+			// the empty header: `for ; ; { }`, left by break only
+			g.feat("loop_cfor_empty_header")
+			body = append([]*N{{K: "let", Ps: []string{ctr}, Ns: []*N{Bin("+", Id(ctr), Int(1))}}, {K: "if", Ns: []*N{Bin(">", Id(ctr), Int(bound))}, Ss: [][]*N{{{K: "break"}}}}}, body...)
+			out = []*N{{K: "var", Ps: []string{ctr}, Ns: []*N{Int(0)}}, {K: "cfor", Ns: []*N{none, none, none}, Ss: [][]*N{body}}}
 		case 6:
 			// neither a post expression nor a condition that reads a variable: constant-true condition, left by break only
 			g.feat("loop_cfor_constant_condition_without_post")
